@@ -15,12 +15,14 @@ cd $WT
 res() { echo "RESULT $ID $*"; }
 if ! git apply $PATCH 2>/tmp/seedchk-$ID.err; then res "apply=FAIL"; git -C /repo worktree remove --force $WT; exit 1; fi
 if ! go build -mod=mod -o /dev/null ./cmd/keymasterd 2>/tmp/seedchk-$ID.err; then res "apply=ok build=FAIL"; git -C /repo worktree remove --force $WT; exit 1; fi
-KM_REPO=$WT /verif/scripts/baseline.sh > /tmp/seedchk-$ID.base 2>&1; BASE=$?
-if [ $BASE -ne 0 ]; then sleep 2; KM_REPO=$WT /verif/scripts/baseline.sh > /tmp/seedchk-$ID.base 2>&1; BASE=$?; fi
+# tests listen on fixed ports: run them in a private network namespace so parallel verifications do not collide
+NS="unshare -n sh -c"
+$NS "ip link set lo up; KM_REPO=$WT /verif/scripts/baseline.sh" > /tmp/seedchk-$ID.base 2>&1; BASE=$?
+if [ $BASE -ne 0 ]; then sleep 2; $NS "ip link set lo up; KM_REPO=$WT /verif/scripts/baseline.sh" > /tmp/seedchk-$ID.base 2>&1; BASE=$?; fi
 TESTS=$(grep -ohE "^func (Test[A-Za-z0-9_]+)" $SRC/$DEMO | awk '{print $2}' | paste -sd'|')
 DIR=$(dirname $TGT)
 cp $SRC/$DEMO $WT/$TGT
-run_demo() { for i in 1 2 3; do go test -mod=mod -vet=off -count=1 -run "^($TESTS)\$" ./$DIR > /tmp/seedchk-$ID.demo 2>&1; rc=$?; if grep -q "dependency_monitor_test.go:34\|address already in use" /tmp/seedchk-$ID.demo; then sleep 3; continue; fi; return $rc; done; return $rc; }
+run_demo() { for i in 1 2 3; do $NS "ip link set lo up; go test -mod=mod -vet=off -count=1 -run '^($TESTS)\$' ./$DIR" > /tmp/seedchk-$ID.demo 2>&1; rc=$?; if grep -q "dependency_monitor_test.go:34\|address already in use" /tmp/seedchk-$ID.demo; then sleep 3; continue; fi; return $rc; done; return $rc; }
 run_demo; WITH=$?
 cp /tmp/seedchk-$ID.demo /tmp/seedchk-$ID.demo.with
 git apply -R $PATCH
